@@ -709,6 +709,103 @@ func (l *log) Get(offset int64) (message.Message, error) {""")]),
 			}""", """			if found != nil {
 				return *found, nil
 			}""")]),
+ ("index.Get: bisect replaced by sort.Search with an equality test", [("pkg/index/offset.go", """	for beginIndex <= endIndex {
+		midIndex := (beginIndex + endIndex) / 2
+		midItem := items[midIndex]
+		switch {
+		case midItem.Offset < offset:
+			beginIndex = midIndex + 1
+		case midItem.Offset > offset:
+			endIndex = midIndex - 1
+		default:
+			return midItem.Position, nil
+		}
+	}
+
+	return 0, ErrOffsetNotFound""", """	at := sort.Search(len(items), func(i int) bool { return items[i].Offset >= offset })
+	if at < len(items) && items[at].Offset == offset {
+		return items[at].Position, nil
+	}
+
+	return 0, ErrOffsetNotFound"""), ("pkg/index/offset.go", """import (
+	"fmt"
+""", """import (
+	"fmt"
+	"sort"
+""")]),
+ ("index.Consume: relative offsets through an if chain", [("pkg/index/offset.go", """	switch offset {
+	case message.OffsetOldest:
+		return items[0].Position, items[len(items)-1].Position, nil
+	case message.OffsetNewest:
+		last := items[len(items)-1]
+		return last.Position, last.Position, nil
+	}
+
+	beginIndex := 0
+	beginItem := items[beginIndex]
+	switch {
+	case offset <= beginItem.Offset:""", """	last := items[len(items)-1]
+	if offset == message.OffsetOldest {
+		return items[0].Position, last.Position, nil
+	} else if offset == message.OffsetNewest {
+		return last.Position, last.Position, nil
+	}
+
+	beginIndex := 0
+	beginItem := items[beginIndex]
+	switch {
+	case offset <= beginItem.Offset:""")]),
+ ("index.Time: first-item equality left to the search", [("pkg/index/times.go", """	case ts < beginItem.Timestamp:
+		return 0, ErrTimeBeforeStart
+	case ts == beginItem.Timestamp:
+		return beginItem.Position, nil
+	}""", """	case ts < beginItem.Timestamp:
+		return 0, ErrTimeBeforeStart
+	}""")]),
+ ("AppendKeys: first position through make and append", [("pkg/index/keys.go", """			keys.Insert(hash, &keyPositions{[]int64{item.Position}})""", """			first := make([]int64, 0, 2)
+			first = append(first, item.Position)
+			keys.Insert(hash, &keyPositions{positions: first})""")]),
+ ("NextOffset: explicit unlock instead of defer in the read-only branch", [("log.go", """		l.readersMu.RLock()
+		defer l.readersMu.RUnlock()
+
+		rdr := l.readers[len(l.readers)-1]
+		return rdr.GetNextOffset()
+	}
+
+	l.writerMu.Lock()
+	defer l.writerMu.Unlock()
+
+	return l.writer.GetNextOffset()""", """		l.readersMu.RLock()
+		head := l.readers[len(l.readers)-1]
+		next, err := head.GetNextOffset()
+		l.readersMu.RUnlock()
+		return next, err
+	}
+
+	l.writerMu.Lock()
+	defer l.writerMu.Unlock()
+
+	return l.writer.GetNextOffset()""")]),
+ ("Consume: sentinel compared with errors.Is, next segment through an index variable", [("log.go", """	if err == index.ErrOffsetAfterEnd && segmentIndex < len(l.readers)-1 {
+		// this is after the end, consume starting the next one
+		next := l.readers[segmentIndex+1]
+		return next.Consume(message.OffsetOldest, maxCount)
+	}""", """	if errors.Is(err, index.ErrOffsetAfterEnd) && segmentIndex+1 < len(l.readers) {
+		// this is after the end, consume starting the next one
+		following := segmentIndex + 1
+		return l.readers[following].Consume(message.OffsetOldest, maxCount)
+	}""")]),
+ ("Stat: loop by index", [("log.go", """	for _, reader := range l.readers {
+		segStats, err := reader.Stat()
+		if err != nil {
+			return segment.Stats{}, err
+		}
+""", """	for i := 0; i < len(l.readers); i++ {
+		segStats, err := l.readers[i].Stat()
+		if err != nil {
+			return segment.Stats{}, err
+		}
+""")]),
 ]
 
 def main():
